@@ -52,6 +52,17 @@ def run(ctx):
         p = find_path(fsm, init, u0, edge_ok=lambda e, pred=pred: not pred(e))
         ctx.ob('C41.training-cut', 'LTSSM.init->U0.' + name, p is None, p[0].loc if p else fsm.loc,
                'a path from %s to U0 avoids every %s edge: %s' % (init, name, ' ; '.join('%s->%s' % (e.src, e.dst) for e in p or [])))
+    # the polling-LFPS flag counts only "since this pass through the polling state": every edge into a state that
+    # decides on it must clear it (otherwise a pass after a warm reset or a timeout inherits the flag of the previous one)
+    LF = 'lfps_burst_seen'
+    clear_lf = [a for a in ir.drivers(LF, exact=True) if q.is_zero(a.rhs)]
+    readers = sorted({e.src for e in fsm.edges if q.has(e, LF)})
+    ctx.need(readers, 'a state that decides on %s' % LF)
+    for s in readers:
+        for e in fsm.in_edges(s):
+            ctx.ob('C41.lfps-since-entry', 'LTSSM.%s->%s' % (e.src, s), _has_assign(clear_lf, e), e.loc,
+                   'every edge into %s must clear %s (polling LFPS must have been exchanged since the last reset, not during an '
+                   'earlier pass): %s' % (s, LF, q.fmt(e)))
     # (c) re-entry states
     clear_ts2 = [a for a in ir.drivers('ts2_seen', exact=True) if q.is_zero(a.rhs)]
     entries = sorted({s for s in fsm.states if any(e.dst == s and _has_assign(clear_ts2, e) for e in fsm.edges)})
